@@ -1,1 +1,132 @@
-(* placeholder *)
+(** C19 — the lockset discipline implies data-race freedom.
+
+    "When several goroutines use the database concurrently, no two of them
+    access the same storage-engine memory without synchronisation."
+
+    A data race itself cannot be exhibited by a Gallina model.  What is logic is
+    the discipline: if, in a trace of lock and access events that respects the
+    sync.RWMutex semantics, every write happens while its goroutine holds the
+    location's guard lock exclusively and every read while it holds it at least
+    shared, then any two conflicting accesses are ordered by happens-before.
+    The correspondence run feeds the recorded event traces (hook H4) to the
+    executable checkers [well_formed] and [disciplined].
+
+    Model: Model/Trace.v.  Proofs: Proofs/TraceProofs.v.  Statements hold for
+    every guard map, every trace, any number of goroutines, locks and locations. *)
+From Coq Require Import List NArith Bool.
+From SDB Require Import Model.Trace Proofs.TraceProofs.
+Import ListNotations.
+Open Scope N_scope.
+
+(** In a well-formed trace accepted by the discipline checker, two accesses to
+    the same location by different goroutines, at least one a write, are ordered
+    by happens-before (in trace order). *)
+Theorem discipline_implies_drf : forall guard tr i j g1 g2 loc a1 a2,
+  well_formed tr = true -> disciplined guard tr = true ->
+  nth_error tr i = Some (Acc g1 loc a1) -> nth_error tr j = Some (Acc g2 loc a2) ->
+  (i < j)%nat -> g1 <> g2 -> (a1 = Write \/ a2 = Write) ->
+  hb tr i j.
+Proof.
+  intros guard tr i j g1 g2 loc a1 a2 Hwf Hd.
+  apply (discipline_drf_ordered guard);
+    [now apply well_formed_iff | now apply disciplined_iff].
+Qed.
+Print Assumptions discipline_implies_drf.
+
+(** Hence such a trace has no data race. *)
+Theorem discipline_implies_no_data_race : forall guard tr,
+  well_formed tr = true -> disciplined guard tr = true ->
+  forall i j, ~ data_race tr i j.
+Proof.
+  intros guard tr Hwf Hd i j.
+  apply (discipline_no_race guard); [now apply well_formed_iff | now apply disciplined_iff].
+Qed.
+Print Assumptions discipline_implies_no_data_race.
+
+(** The boolean checker implies (and is implied by) the Prop-level discipline:
+    at every write the goroutine holds the guard exclusively, at every read it
+    holds it in some mode. *)
+Theorem discipline_checker_sound : forall guard tr,
+  disciplined guard tr = true -> disciplinedP guard tr.
+Proof. intros guard tr. apply disciplined_iff. Qed.
+Print Assumptions discipline_checker_sound.
+
+Theorem discipline_checker_complete : forall guard tr,
+  disciplinedP guard tr -> disciplined guard tr = true.
+Proof. intros guard tr. apply disciplined_iff. Qed.
+Print Assumptions discipline_checker_complete.
+
+(** The same for the lock-semantics checker: every event is legal in the lock
+    state it occurs in. *)
+Theorem well_formed_checker_sound : forall tr, well_formed tr = true <-> well_formedP tr.
+Proof. exact well_formed_iff. Qed.
+Print Assumptions well_formed_checker_sound.
+
+(** Happens-before is consistent with the trace order, hence irreflexive and acyclic. *)
+Theorem hb_respects_trace_order : forall tr i j, hb tr i j -> (i < j)%nat.
+Proof. exact hb_lt. Qed.
+Print Assumptions hb_respects_trace_order.
+
+(** In a well-formed trace an exclusive holder excludes every other holder, at
+    every position. *)
+Theorem exclusive_holder_is_alone : forall tr k g1 g2 l m, well_formed tr = true ->
+  In (g1, l, Exclusive) (state_at tr k) -> In (g2, l, m) (state_at tr k) -> g1 = g2.
+Proof.
+  intros tr k g1 g2 l m Hwf. apply (x_excl_at tr); now apply well_formed_iff.
+Qed.
+Print Assumptions exclusive_holder_is_alone.
+
+(** * Non-vacuity *)
+
+(** Locations 10..19 are guarded by lock 1, everything else by lock 0. *)
+Definition ex_guard (loc : N) : N := if (10 <=? loc) && (loc <? 20) then 1 else 0.
+
+(** Goroutines 1 and 2 read location 10 under shared holds of lock 1 (held at
+    the same time), then goroutine 3 writes it under the exclusive hold;
+    goroutine 2 meanwhile writes location 5 under lock 0. *)
+Definition ex_good : list tevent :=
+  [ Acq 1 1 Shared; Acq 2 1 Shared; Acc 1 10 Read; Acc 2 10 Read;
+    Acq 2 0 Exclusive; Acc 2 5 Write; Rel 2 0;
+    Rel 1 1; Rel 2 1;
+    Acq 3 1 Exclusive; Acc 3 10 Write; Acc 3 10 Read; Rel 3 1;
+    Acq 1 1 Shared; Acc 1 10 Read; Rel 1 1 ].
+
+Example c19_good_accepted :
+  well_formed ex_good = true /\ disciplined ex_guard ex_good = true.
+Proof. vm_compute. split; reflexivity. Qed.
+
+(** The theorem applies: the read at position 2 (goroutine 1) and the write at
+    position 10 (goroutine 3) are ordered, and so are that write and the later
+    read at position 14. *)
+Ltac c19_side :=
+  solve [ assumption | reflexivity | discriminate | repeat constructor
+        | left; reflexivity | right; reflexivity ].
+
+Example c19_good_ordered : hb ex_good 2 10 /\ hb ex_good 3 10 /\ hb ex_good 10 14.
+Proof.
+  destruct c19_good_accepted as [Hwf Hd].
+  repeat split.
+  - apply (discipline_implies_drf ex_guard ex_good 2 10 1 3 10 Read Write); c19_side.
+  - apply (discipline_implies_drf ex_guard ex_good 3 10 2 3 10 Read Write); c19_side.
+  - apply (discipline_implies_drf ex_guard ex_good 10 14 3 1 10 Write Read); c19_side.
+Qed.
+
+(** An unguarded write, a write under a shared hold only, and a write under the
+    wrong lock are rejected. *)
+Example c19_unguarded_write_rejected :
+  disciplined ex_guard [ Acq 1 1 Shared; Acc 1 10 Read; Rel 1 1; Acc 2 10 Write ] = false /\
+  disciplined ex_guard [ Acq 1 1 Shared; Acc 1 10 Write; Rel 1 1 ] = false /\
+  disciplined ex_guard [ Acq 1 0 Exclusive; Acc 1 10 Write; Rel 1 0 ] = false /\
+  disciplined ex_guard [ Acq 1 1 Exclusive; Rel 1 1; Acc 1 10 Read ] = false /\
+  well_formed [ Acq 1 1 Shared; Acc 1 10 Read; Rel 1 1; Acc 2 10 Write ] = true.
+Proof. vm_compute. repeat split; reflexivity. Qed.
+
+(** Traces violating the RWMutex semantics are not well formed: exclusive
+    acquire while a reader holds the lock, shared acquire while a writer holds
+    it, release by a non-holder. *)
+Example c19_ill_formed_rejected :
+  well_formed [ Acq 1 1 Shared; Acq 2 1 Exclusive ] = false /\
+  well_formed [ Acq 1 1 Exclusive; Acq 2 1 Shared ] = false /\
+  well_formed [ Acq 1 1 Exclusive; Rel 2 1 ] = false /\
+  well_formed [ Acq 1 1 Shared; Acq 2 1 Shared; Rel 1 1; Rel 2 1; Acq 3 1 Exclusive ] = true.
+Proof. vm_compute. repeat split; reflexivity. Qed.
